@@ -424,6 +424,14 @@ def check_property(pid, tier, seed, replay=None, verbose=True):
             failures.append(dict(sig="target-exit-%s" % st, case=dict(kind="crash-no-case"), detail=res["stderr"][-3000:],
                                  target=tname, run_args=list(jobs[results.index(res)][0].args)))
 
+    # ---- property-specific post-processing (e.g. cross-validation of the oracle); may declare the run inconclusive ----
+    if spec.get("post") and replay is None:
+        bad = spec["post"](results, workdir, notes)
+        if bad:
+            inconclusive += bad
+            if failures:
+                notes.append("oracle cross-check failed: %d failures of this run are NOT reported as violations (inconclusive)" % len(failures))
+                failures = []
     # ---- classify against the known-findings file -----------------------------------
     known = [k for k in load_known() if k.get("property") == pid and k.get("status") == "open"]
     violations = []
